@@ -33,7 +33,7 @@ Print Assumptions C18_ravel_length.
 (** each value of the k-th data array is the value of the variable carrying
     the k-th name at the same index, and the grid's coordinates at that index
     are the source cell's: n[i], e[j] for 1-D input; for 2-D input
-    N[i][j], E[i][j] up to the allclose test that admitted the input and
+    N[i][j], E[i][j] up to the allclose test that accepted the input and
     exactly for exact meshgrids (see [source_cell]) *)
 Theorem C18_make_grid_placement : forall (V : Type) (close : V -> V -> bool)
     ce cn extras data dnames dims xnames ds k nm (a : arr2 V) i j v,
